@@ -196,8 +196,8 @@ func (w *world) initiateInWindow(side int) error {
 	var fired atomic.Bool
 	var wg sync.WaitGroup
 	w.ms.OnLinkSend = func(l *vmesh.VLink, data []byte) {
-		if l.FromIdx() != n.Idx || !fired.CompareAndSwap(false, true) {
-			return
+		if core.FromForeignGoroutine() || l.FromIdx() != n.Idx || !fired.CompareAndSwap(false, true) {
+			return // (a link send made by a worker of the tree's own is not the sender's Send)
 		}
 		var p *vmesh.Packet
 		for i, q := range w.ms.InFlight {
